@@ -4,10 +4,10 @@
 set -e
 V=$1
 ROOT=$(cd "$(dirname "$0")/.." && pwd)
-B=$ROOT/.build/$V
+B=$ROOT/${VERIF_BUILD_DIR:-.build}/$V
 REPO=${VERIF_REPO:-/repo}
 mkdir -p "$B"
-exec 9>"$ROOT/.build/$V.lock"
+exec 9>"$ROOT/${VERIF_BUILD_DIR:-.build}/$V.lock"
 flock 9
 COMMON="-DNDEBUG -DSVT_AV1_VERIF -g1 -fno-omit-frame-pointer"
 if [ "$V" = asan ]; then
